@@ -126,5 +126,19 @@ CLAIMS = {
         "technique": "Coq proof (structural theorems; per-country equivalences where listed) + extracted published-rule spec as oracle + correspondence",
         "design_ref": "DESIGN.md §4 C06",
     },
+    "C07": {
+        "text": "The model of germany.py is the WeightedModulus template plus the hook bodies, with the class table (resolved "
+                "MRO: which class defines which hook, effective positions/weights/modulus/minuend/reverse) regenerated from the "
+                "live classes on every run and every method body fingerprinted; Spec/Bundesbank.v states the 39 methods in the "
+                "Bundesbank's vocabulary and is validated by Examples on the 60 valid / 10 invalid Bundesbank test numbers the "
+                "suite quotes. Proved: C07_only_account (the verdict is a function of method and account only). The implementation "
+                "is compared with the extracted Bundesbank spec on random, boundary (literal-harvested) and check-digit-swept "
+                "accounts for every method, and with the model; DE IBANs through the public API for every distinct checksum_algo "
+                "of the registry and unlisted banks. Per-method equivalence theorems: see evidence obligation_names (partial). "
+                "Found and fixed: methods 08, 11, 16, 23, 99 (five commits); open known finding: method 76 remainder 10.",
+        "note": COMMON_NOTE + " Spec/Bundesbank.v is a hand transcription of the Bundesbank method descriptions (no network); retry clauses for omitted sub-account numbers (13, 63, 76) are deliberately excluded.",
+        "technique": "Coq model with generated class table + extracted Bundesbank spec as oracle + correspondence; per-method symbolic equivalence proofs where listed",
+        "design_ref": "DESIGN.md §4 C07",
+    },
 }
 NOT_APPLICABLE = {}
